@@ -548,6 +548,31 @@ Section Proofs.
     intros H; inversion H; subst. apply (get_and_parse_ok _ _ _ _ E).
   Qed.
 
+  (* ---------------- histories ---------------- *)
+
+  Lemma get_sth_history_verified_l k os s :
+    In (COk s) (get_sth_history key sig_ok (Some k) os) -> ts_ok (t_ts s) -> ts_ok (t_size s) ->
+    sig_ok k (enc_sth_siginput (t_ts s) (t_size s) (t_root s)) (t_sig s) = true /\ length (t_root s) = 32%nat.
+  Proof.
+    unfold get_sth_history. intros H. apply in_map_iff in H. destruct H as (o & H & _).
+    exact (get_sth_verified_l k o s H).
+  Qed.
+
+  Lemma add_chain_history_verified_l k calls s :
+    length (key_hash k) = 32%nat ->
+    In (COk s) (add_chain_history key sig_ok key_hash x509_of precert_of patched (Some k) calls) -> ts_ok (s_ts s) ->
+    exists chain et os e, In (chain, et, os) calls /\
+      submitted_entry x509_of precert_of chain et e /\ entry_type e = et /\ entry_ok e /\ ext_ok (s_ext s) /\
+      s_version s = 0%N /\
+      sig_ok k (enc_sct_siginput (s_ts s) e (s_ext s)) (s_sig s) = true /\
+      s_logid s = key_hash k.
+  Proof.
+    intros Hl H Hts. unfold add_chain_history in H. apply in_map_iff in H. destruct H as ([[chain et] os] & H & Hin).
+    cbn [fst snd] in H.
+    destruct (add_chain_verified_l k chain et os s Hl H Hts) as (e & He).
+    exists chain, et, os, e. split; [exact Hin|exact He].
+  Qed.
+
   Lemma entries_bad_range v start end_ o :
     (end_ < 0 \/ end_ < start)%Z -> get_entries v start end_ o = CPlainErr /\ get_raw_entries start end_ o = CPlainErr.
   Proof.
